@@ -46,6 +46,8 @@ def main(argv):
     chk.analysed["configs"].append("A: cargo check --workspace (tough with feature http)")
     try:
         mod.run(chk, prog)
+        from .rules import errors
+        errors.run(chk, prog, prop)
         if tier == "thorough" and not a.repo:
             thorough(chk, mod, prop, a)
     except Exception:
@@ -77,6 +79,8 @@ def thorough(chk, mod, prop, a):
             progb.config = "B"
             sub = report.Check(prop, "thorough", chk.seed)
             mod.run(sub, progb)
+            from .rules import errors
+            errors.run(sub, progb, prop)
             chk.analysed["configs"].append("B: cargo check -p tough --no-default-features (%d rule instances)" % len(sub.obligations))
             seen = set(v["key"] for v in chk.violations)
             for o in sub.obligations:
